@@ -1454,7 +1454,8 @@ inline void XMLString::moveChars(       XMLCh* const targetStr
                                 , const XMLCh* const srcStr
                                 , const XMLSize_t    count)
 {
-    memmove(targetStr, srcStr, count * sizeof(XMLCh));
+    if (count)
+        memmove(targetStr, srcStr, count * sizeof(XMLCh));
 }
 
 inline XMLSize_t XMLString::stringLen(const XMLCh* const src)
